@@ -4,6 +4,7 @@ Theorems over the transition system `HW.Inbox` (one step per atomic action of ac
 every number of senders, messages, stoppers, every batch size B ≥ 1 and EVERY interleaving.
 -/
 import HW.Proofs.Inbox
+import HW.Proofs.InboxLive
 import HW.Props.Facts
 namespace HW.C03
 open HW.Inbox
@@ -27,6 +28,24 @@ theorem quiescent_all_processed (B : Nat) (hB : 1 ≤ B) (senders : List (List M
     (hr : Reachable B senders nStop s) (hq : quiescent s = true) (hn : s.everStopped = false) :
     s.started = true ∧ s.status = .idle ∧ s.q = [] ∧ s.delivered = s.pushed.map (·.2) :=
   Inbox.quiescent_all_delivered B hB senders nStop s hr hq hn
+
+/-- "Eventually": the protocol has no infinite runs — from every initial configuration there is a bound
+    on the number of steps ANY schedule can take (workers cannot keep re-spawning each other, a failed
+    CAS is never retried in a loop). -/
+theorem terminates (B : Nat) (hB : 1 ≤ B) (senders : List (List Msg)) (nStop : Nat) :
+    ∃ N, ∀ sched, effSteps B (init senders nStop) sched ≤ N :=
+  Inbox.terminates B hB senders nStop
+
+/-- Liveness in its "every maximal run" form: every run that cannot be extended — which by `terminates`
+    every run becomes after finitely many steps, under any scheduler that keeps running enabled threads
+    (the fairness of the Go scheduler is the only assumption left) — of a never stopped inbox has an
+    empty queue and has delivered everything that was accepted, with no further send needed. -/
+theorem maximal_run_delivers_all (B : Nat) (hB : 1 ≤ B) (senders : List (List Msg)) (nStop : Nat) (sched : List Nat)
+    (hmax : ∀ t, step B (runSched B (init senders nStop) sched) t = none)
+    (hn : (runSched B (init senders nStop) sched).everStopped = false) :
+    (runSched B (init senders nStop) sched).q = [] ∧
+    (runSched B (init senders nStop) sched).delivered = (runSched B (init senders nStop) sched).pushed.map (·.2) :=
+  Inbox.maximal_run_delivers_all B hB senders nStop sched hmax hn
 
 /-- the batch size the code uses is ≥ 1 (regenerated constant). -/
 theorem batch_size_pos : 1 ≤ Generated.messageBatchSize := by decide
